@@ -2457,6 +2457,7 @@ func c13Snip(c *Ctx) {
 	if c13SnipRunsForward(P, fn, H, idx) {
 		c13SnipForward(c, fn, H, entry, idx, kept, lines, height, lineOfTrip)
 		c13SnipResult(c, fn, kept, ellipsis)
+		c13SnipWidth(c, fn, H, kept, ellipsis, ssa.Value(fn.Params[1]))
 		return
 	}
 	// (a) on entry: i = h-1 with h <= height and h <= len(lines), nothing kept
@@ -2529,6 +2530,7 @@ func c13Snip(c *Ctx) {
 		c.check(stepOK && shapeOK, fmt.Sprintf("%s/snip-trip#%d", fname, pi), pos, fname, "the index drops by one; lines[i] (or nothing, while nothing is kept yet) goes in front of the kept lines ("+where+")", "Snip: "+map[bool]string{true: why, false: "the index does not drop by exactly one"}[stepOK]+" ("+where+")")
 	}
 	c13SnipResult(c, fn, kept, ellipsis)
+	c13SnipWidth(c, fn, H, kept, ellipsis, ssa.Value(fn.Params[1]))
 	// ellipses handed in are constants without a line feed
 	for _, e := range P.Callers(fn) {
 		if e.Site == nil {
